@@ -291,6 +291,7 @@ def run(c):
         ops_seen = set()
         other_pkg_custom = []
         decl_only = []
+        off_line = []
         for cs in cases:
             c.count()
             inp = {"case": cs["name"], "kind": cs["kind"], "seed": c.seed, "rules_path": cs.get("rules_path"),
@@ -375,6 +376,10 @@ def run(c):
                         decl_only.append((cs["name"], res["ndecl"]))
                         c.coverage["reports_naming_own_declarations_of_files_without_functions"] = \
                             c.coverage.get("reports_naming_own_declarations_of_files_without_functions", 0) + res["ndecl"]
+                    if cs.get("off_line_plain") and res.get("nlayout"):
+                        off_line.append((cs["name"], cs["off_line_plain"], cs.get("off_line"), res["nlayout"]))
+                        c.coverage["reports_of_rules_with_patterns_on_other_lines"] = \
+                            c.coverage.get("reports_of_rules_with_patterns_on_other_lines", 0) + res["nlayout"]
                     mpk = re.search(r"^package (\w+)", read_text(cs["rules_path"]) or "", re.M)
                     if mpk and mpk.group(1) != "gorules" and res.get("ncustom"):
                         other_pkg_custom.append((cs["name"], mpk.group(1), res["ncustom"]))
@@ -398,6 +403,15 @@ def run(c):
                 c.sample({"case": cs["name"], "kind": cs["kind"], "ops": cs.get("ops"), "printed_bytes": len(cs.get("text") or ""),
                           "deep_equal": res["deep_equal"], "deep_equal_norm": res["deep_equal_norm"], "loaded": res.get("loaded"),
                           "reports": res.get("nreports")})
+        if results:
+            nshaped = sum(1 for cs in cases if cs["kind"] == "random" and cs.get("off_line_plain"))
+            c.coverage["random_ir_values_with_a_plain_rule_off_its_pattern_line"] = \
+                c.coverage.get("random_ir_values_with_a_plain_rule_off_its_pattern_line", 0) + nshaped
+            c.obligation("generator:pattern-layouts:" + tag, len(off_line) >= 5 and nshaped >= 3,
+                         "rules files with rules that are one pattern + a message whose pattern is written on another line than the rule starts on "
+                         "(multi-line argument lists, alternatives on separate lines, a chain broken before Match), reporting through Load and "
+                         "LoadFromIR with RuleInfo.Line compared: %d files %r (need >= 5); random IR values with such a rule: %d (need >= 3)" % (
+                             len(off_line), off_line[:4], nshaped))
         if results:
             c.obligation("generator:package-clauses:" + tag, len(other_pkg_custom) >= 3,
                          "rules files declaring a package other than gorules whose custom-function rules reported through Load and LoadFromIR: %r (need >= 3)" % (other_pkg_custom,))
